@@ -579,10 +579,7 @@ fn spec(c: &LCase) -> Option<Spec> {
                     exp = one(atom("inst"));
                 }
                 2 => {
-                    // a compound non-pair element hits the open finding (corrupt culprit cell, panics the
-                    // transport encoder and costs a new session): excluded by construction except for a few witnesses
-                    let compound = matches!(e.norm(), T::Cmp(..) | T::PList(..)) && unpair(e).is_none();
-                    let e2 = if compound && (c.n >> 2) % 8 != 0 { atom("nonpair") } else { e.clone() };
+                    let e2 = e.clone();
                     zs = xs.clone();
                     zs.insert(k, e2.clone());
                     goal = "c14_outcome(keysort(Zs, _), R)";
@@ -1333,7 +1330,7 @@ fn raw_op() -> BoxedStrategy<RawOp> {
         2 => Just(RawOp::Max),
         2 => Just(RawOp::Min),
         2 => kv().prop_map(RawOp::FromList),
-        2 => (kv(), (0u8..100).prop_map(|r| r == 0)).prop_map(|(l, raw)| RawOp::FromOrdList(l, raw)),
+        2 => (kv(), (0u8..20).prop_map(|r| r == 0)).prop_map(|(l, raw)| RawOp::FromOrdList(l, raw)),
         2 => Just(RawOp::Gen),
         2 => any::<u16>().prop_map(RawOp::GenKey),
         4 => (any::<u16>(), value_strategy()).prop_map(|(k, v)| RawOp::Upd(k, v)),
